@@ -322,14 +322,27 @@ func runFLD(args []string) (out string) {
 	}
 	show := func(f fieldLike, e, j string) string {
 		m := &sse.Message{}
+		// the bytes MarshalText hands out belong to the caller: overwriting them (a buffer that is reused) leaves the
+		// value alone
+		scribble := func(b []byte, err error) {
+			if err == nil {
+				for i := range b {
+					b[i] = '\n'
+				}
+			}
+		}
 		switch v := f.(type) {
 		case sse.EventID:
+			scribble(v.MarshalText())
 			m.ID = v
 		case *sse.EventID:
+			scribble(v.MarshalText())
 			m.ID = *v
 		case sse.EventType:
+			scribble(v.MarshalText())
 			m.Type = v
 		case *sse.EventType:
+			scribble(v.MarshalText())
 			m.Type = *v
 		}
 		val := "-"
